@@ -361,8 +361,10 @@ impl<C: CellType> OptRebuild<'_, C> {
     /// the necessary pending operations.
     fn perform_all(&mut self, shift: isize, calcs: &[(isize, Expr<C>)]) {
         let mut exprs = SmallVec::<_, 1>::with_capacity(calcs.len());
-        for (var, expr) in calcs {
-            // Special check to avoid the worst type of exponential explosion.
+        for (_, expr) in calcs {
+            // Special check to avoid the worst type of exponential explosion. This
+            // must be done for all calculations before evaluating any of them, since
+            // emitting changes the state the evaluated expressions are relative to.
             for vars in expr.grouped_vars() {
                 if vars.len() >= 2 {
                     let mut last = isize::MIN;
@@ -376,6 +378,8 @@ impl<C: CellType> OptRebuild<'_, C> {
                     }
                 }
             }
+        }
+        for (var, expr) in calcs {
             let pending = self.eval_pending(shift, expr);
             exprs.push((shift + *var, pending));
         }
